@@ -3,7 +3,7 @@ from collections import Counter
 
 from mc import world
 from mc.engine import Family, Res
-from mc.interp import build, count_events, leaf_kinds, class_name, footprint, rep_count
+from mc.interp import bump_registry_counts, registry_counts, build, count_events, leaf_kinds, class_name, footprint, rep_count
 from mc.ref.schedule import chans_of, canonical_state
 from mc.ref.unroll import model_build, model_rows, impl_rows, Sched
 from mc.spaces import NestedSpace1, NestedSpace2, TwoLevelSpace, N1_BODIES, N1_BODIES_EXTRA
@@ -35,9 +35,9 @@ def has_nested_rep(body):
 
 
 class UnrollFamily(Family):
-    def __init__(self, space, cfgname='G', top_reps=(1,)):
-        self.space, self.cfgname, self.top_reps = space, cfgname, top_reps
-        self.name = 'unroll/%s%d/%s' % (space.name, space.max_len, cfgname)
+    def __init__(self, space, cfgname='G', top_reps=(1,), bump=False):
+        self.space, self.cfgname, self.top_reps, self.bump = space, cfgname, top_reps, bump
+        self.name = 'unroll/%s%d/%s%s' % (space.name, space.max_len, cfgname, '/count-set-after-build' if bump else '')
         self.rule = ('all programs of space %s up to length %d (top-level count in %r), unrolled with apply_modifiers() under configuration %s; '
                      'non-trivial = some block carries a count > 1' % (space.name, space.max_len, list(top_reps), cfgname))
 
@@ -66,6 +66,14 @@ class UnrollFamily(Family):
     def _run(self, prog, top_rep, cfg, res):
         b = build(prog, rep=top_rep)
         c = b.circ
+        if self.bump and b.registries is not None:
+            # the registry entries are raised after the circuit (with all its nested copies) has been built: the counts that
+            # matter are the ones in force when the modifiers are applied
+            for k in sorted(registry_counts(prog) | ({int(top_rep[1])} if isinstance(top_rep, (tuple, list)) else set()), reverse=True):
+                b.registries.set_registry_at('n%d' % k, k + 1)
+            prog = bump_registry_counts(prog)
+            if isinstance(top_rep, (tuple, list)):
+                top_rep = ('reg', int(top_rep[1]) + 1)
         model = model_build(prog, cfg, top_rep)
         sched = Sched(cfg)
         before_ops = c.operations
@@ -244,6 +252,7 @@ def empty_blocks_family():
 def families(tier):
     if tier == 'quick':
         return [empty_blocks_family(), UnrollFamily(NestedSpace2(2, reps=(('reg', 2), ('reg', 3)), atoms=[('X', 0), ('M', 0), ('R', 1)]), 'H', top_reps=(1, 2)),
+                UnrollFamily(NestedSpace2(2, reps=(('reg', 2),), atoms=[('X', 0), ('M', 0), ('R', 1)]), 'H', top_reps=(1, 2, ('reg', 2)), bump=True),
                 UnrollFamily(NestedSpace2(2)), UnrollFamily(NestedSpace1(3)),
                 UnrollFamily(NestedSpace1(2, reps=(1, 2, 3), bodies=N1_BODIES + N1_BODIES_EXTRA), 'H', top_reps=(1, 2, ('reg', 3))),
                 UnrollFamily(TwoLevelSpace(1), 'D', top_reps=(1, 2)), LibraryUnroll()]
